@@ -8,6 +8,7 @@ import (
 	"fmt"
 
 	"storj.io/drpc"
+	"storj.io/drpc/drpcmetadata"
 
 	"verif/engine/sched"
 	"verif/engine/vs"
@@ -74,6 +75,8 @@ func runHandler(h hprog) wl.HandlerFunc {
 func workload(env *wl.Env, c cprog) {
 	ctx, cancel := context.WithCancel(context.Background())
 	if c.End == "cancel" {
+		// an abandoned call may die between its metadata packet and its invoke
+		ctx = drpcmetadata.AddPairs(ctx, map[string]string{"k": "v"})
 		vs.Go("canceller", func() { wl.Cancel(cancel) })
 	}
 	defer func() {
